@@ -1066,6 +1066,12 @@ func (app *BaseApp) runTx(mode runTxMode, txBytes []byte, tx sdk.Tx) (result sdk
 	// Create a new context based off of the existing context with a cache wrapped
 	// multi-store in case message processing fails.
 	runMsgCtx, newMS := app.txContext(ctx, txBytes) // todo edit here!!!
+	if mode == runTxModeSimulate {
+		// A simulation must never reach the committed state or the node-local caches the consensus path reads:
+		// run the handlers on the cache-wrapped store created for the simulation (never written back) and mark
+		// the context as a side context so that keeper caches are neither consulted nor populated.
+		runMsgCtx = runMsgCtx.WithMultiStore(ms).SetPrevCtx(true)
+	}
 	result = app.runMsg(runMsgCtx, msgs, mode, signer)
 	result.GasWanted = gasWanted
 
